@@ -946,3 +946,35 @@ func Harness_app_stats_twice() {
 	verifAssert("same-error-status", (e1 == nil) == (e2 == nil))
 	verifAssert("same-output", o1 == o2)
 }
+
+// Harness_app_no_database: --no-database behaves as an empty recipe book - whatever names a
+// book otherwise (nothing, --database, HR_DATABASE, the configuration file, all of a book that
+// exists), for every command that reads the book: the output is that of the same command with
+// an empty file as the book.
+func Harness_app_no_database() {
+	cmds := [][]string{{"reg", "--use-old-reg-reporter"}, {"reg"}, {"bal"}, {"bal", "-s", "x"}, {"summary", "2021/01/01"}, {"report", "totals"},
+		{"report", "unresolved"}, {"csv", "database"}, {"csv", "database-resolved"}, {"report", "element-total", "x"}, {"stats"}}
+	cmd := cmds[verifChoose("command", len(cmds))]
+	verifLabel("site", strings.Join(cmd, " "))
+	logArg := "--logfile=" + verifFile("log", hAppLog)
+	book := verifFile("book", hAppDB)
+	var named []string
+	switch verifChoose("book-named-by", 4) {
+	case 1:
+		named = []string{"--database=" + book}
+	case 2:
+		verifSetenv("HR_DATABASE", book)
+	case 3:
+		named = []string{"--config=" + verifFile("cfg", "[Global]\nDbFileName = "+book+"\n")}
+	}
+	if len(named) == 0 || !strings.HasPrefix(named[0], "--config") {
+		named = append(named, "--config="+verifFile("cfg0", "[Global]\n"))
+	}
+	o1, e1 := hApp(-1, append(append([]string{"--no-color", "--no-database", logArg}, named...), cmd...)...)
+	o2, e2 := hApp(-1, append([]string{"--no-color", "--config=" + verifFile("cfg1", "[Global]\n"), "--database=" + verifFile("empty-book", ""), logArg}, cmd...)...)
+	verifCover("ran")
+	verifAssert("no-database-command-runs", e1 == nil && e2 == nil)
+	if cmd[0] != "stats" { // stats prints the book's file name
+		verifAssert("no-database-means-empty-book", o1 == o2)
+	}
+}
